@@ -10,6 +10,39 @@ TRUSTED_BASE = [
 ]
 
 PROPS = {
+    "C02": {
+        "modules": ["BiscuitModel.Props.C02"],
+        "reference": False,
+        "shards": {"quick": 1, "thorough": 12},
+        "trusted": ["value-level model of Authorize (interning invisible; header-copy World.Clone treated as a value copy, see C03/C08 heap statements)",
+                    "wall-clock run limit outside the model"],
+    },
+    "C03": {
+        "modules": ["BiscuitModel.Props.C03"],
+        "reference": False,
+        "shards": {"quick": 1, "thorough": 12},
+        "trusted": ["value-level model of Authorize/Query; World.Clone's slice-header copy is covered by the differential check with steered fact-set capacities, not by a theorem yet"],
+    },
+    "C04": {
+        "modules": ["BiscuitModel.Props.C04"],
+        "reference": True,
+        "shards": {"quick": 1, "thorough": 12},
+        "trusted": ["the fragment hypothesis WithinFragment (every run and query application completes) delimits the theorem; outside it the model still follows the code and is compared differentially",
+                    "interning between token table and authorizer table is covered by the correspondence (cases enter through builders, Serialize, Unmarshal, AuthorizerFor), not by an end-to-end simulation theorem"],
+    },
+    "C11": {
+        "modules": ["BiscuitModel.Props.C11"],
+        "reference": True,
+        "shards": {"quick": 1, "thorough": 8},
+        "trusted": ["PARTIAL for clause (d): the Go scheduler, timers and goroutine lifetime are runtime behaviour the model cannot exhibit; tie = goroutine profile after every case",
+                    "the duration limit is outside the model; observed by wall-clock on the implementation only"],
+    },
+    "C13": {
+        "modules": ["BiscuitModel.Props.C13"],
+        "reference": False,
+        "shards": {"quick": 1, "thorough": 12},
+        "trusted": ["string-level state machine; baseSymbols is invisible at this level (covered by correspondence)"],
+    },
     "C05": {
         "modules": ["BiscuitModel.Props.C05"],
         "reference": True,
